@@ -76,7 +76,7 @@ TOL_GEN = 1e-9       # further than POLE_ZONE from a pole
 POLE_ZONE = 1e-5
 ADMISSIBLE = 1e-12   # inputs must be group elements to this accuracy to be judged
 MAX_ELEMENTWISE = 48
-# GENUINE-DEFECT-CANDIDATE (this one history is excluded from the workload; same class as the cached Gell-Mann / S_n tables of C16 / C14):
+# Genuine defect found with this history and repaired in numqi (same class as the cached Gell-Mann / S_n tables of C16 / C14):
 # get_clebsch_gordan_coeffient hands out its lru_cached list and writable arrays; a caller who edits the returned table in place
 # (t = get_clebsch_gordan_coeffient(1,1); t[0][1] *= 3) gets the edited coefficients from every later call and from
 # get_irreducible_tensor_operator / get_irreducible_hermitian_matrix_basis. With the fix reverted cg/orthogonality, cg/completeness,
